@@ -409,6 +409,18 @@ int _vnacal_new_add_common(vnacal_new_add_arguments_t vnaa)
     assert(!vnaa.vnaa_s_is_diagonal || s_rows == s_columns);
 
     /*
+     * Only the 16 term models can make equations from a partly known
+     * standard.  In the other types, every S cell on a signal path
+     * has to be given.
+     */
+    if (s_rows != s_columns && VL_TYPE(vlp) != VNACAL_T16 &&
+	    VL_TYPE(vlp) != VNACAL_U16) {
+	_vnacal_error(vcp, VNAERR_USAGE, "%s: the S matrix must be square "
+		"with this error term type", function);
+	goto out;
+    }
+
+    /*
      * Make sure a port map was provided if the S matrix is smaller than
      * the calibration matrix.
      */
